@@ -111,8 +111,13 @@ BroadcastExec(cfg, db, us, req, acc) ==
 (*    order, nothing is ever answered, reads are ignored;                  *)
 (*  - unknown function -> 01, invalid / over limit -> 03, deny -> 01.      *)
 (***************************************************************************)
+\* does the server under observation validate the byte-count field of write-multiple requests (see
+\* ModbusPdu!WriteByteCountFieldDisagrees)?  A configuration record without the field means: it does not (the code).
+StrictBC(cfg) == "strictBC" \in DOMAIN cfg /\ cfg.strictBC
+
 HandleFrame(cfg, db, fr) ==
-  LET req == ParseRequest(fr.pdu)
+  LET req == LET p == ParseRequest(fr.pdu)
+             IN IF StrictBC(cfg) /\ WriteByteCountFieldDisagrees(fr.pdu) THEN [p EXCEPT !.tag = "invalid"] ELSE p
       bc == IsBroadcast(cfg, fr.unit)
       mine == fr.unit \in cfg.units
       Tx(pdu) == <<[e |-> "tx", bytes |-> FrameBytes(cfg, fr.tx, fr.unit, pdu)]>>
@@ -163,5 +168,11 @@ ProcessAll(cfg, db, buf, wfail, acc) ==
             THEN [ev |-> acc \o SelectSeq(r.ev, LAMBDA x : x.e # "tx") \o <<[e |-> "end", reason |-> "Io"]>>,
                   db |-> r.db, buf |-> rest, dead |-> TRUE]
             ELSE ProcessAll(cfg, r.db, rest, wfail, acc \o r.ev)
+
+\* is there, among the frames the session will handle from these bytes, one whose outcome C01 / C02 leave open
+RECURSIVE AnyOpenFrame(_, _)
+AnyOpenFrame(cfg, buf) ==
+  LET h == StreamHead(cfg, buf) IN
+  IF h.st = "frame" THEN WriteByteCountFieldDisagrees(h.pdu) \/ AnyOpenFrame(cfg, DropN(buf, h.used)) ELSE FALSE
 
 =============================================================================
